@@ -69,7 +69,7 @@ type fakeProc struct {
 	clean         map[string]int // answers emitted while the output stream was still well-formed
 	preanswered   string
 	outBusy       bool // an answer is on its way out in pieces: nothing else may write to the output in between
-	pendSet       bool           // SyncStdin: a Write is waiting to be taken
+	pendSet       bool // SyncStdin: a Write is waiting to be taken
 	pend          []byte
 	pendCh        chan fakeWriteRes
 }
@@ -212,6 +212,7 @@ func (fp *fakeProc) failPendingLocked() {
 
 func (fp *fakeProc) kill() { fp.exit(errors.New("killed by harness teardown")) }
 
+func (fp *fakeProc) faultFired() bool { fp.mu.Lock(); defer fp.mu.Unlock(); return fp.faultDone }
 func (fp *fakeProc) hasExited() bool  { fp.mu.Lock(); defer fp.mu.Unlock(); return fp.exited }
 func (fp *fakeProc) exitError() error { fp.mu.Lock(); defer fp.mu.Unlock(); return fp.exitErr }
 func (fp *fakeProc) emittedAnswers() map[string]int {
@@ -271,7 +272,7 @@ func (fp *fakeProc) doFault() {
 	}
 	fp.faultDone = true
 	switch fp.script.Fault {
-	case "cut", "dup", "unknown", "oversize", "garbage", "garbage-high", "oversize-max", "preanswer":
+	case "cut", "cut0", "dup", "unknown", "oversize", "garbage", "garbage-high", "oversize-max", "preanswer":
 		fp.faultBytes = true
 	}
 	var exitWith error
@@ -289,6 +290,15 @@ func (fp *fakeProc) doFault() {
 		}
 		fp.emitLocked(msg[:n])
 		doExit, exitWith = true, errors.New("exit status 2")
+	case "cut0":
+		// the same truncated message, but the process ends with status 0
+		msg := frame(&conformancev1.ClientCompatResponse{TestName: "cut/msg"})
+		n := fp.script.CutBytes
+		if n > len(msg)-1 {
+			n = len(msg) - 1
+		}
+		fp.emitLocked(msg[:n])
+		doExit = true
 	case "dup":
 		if fp.lastAnswer != nil {
 			fp.emitLocked(fp.lastAnswer)
